@@ -19,11 +19,13 @@ use rt::*;
 struct Args {
     profile: String, seed: u64, max_runs: u64, budget_ms: u64, noise: String, out: Option<String>, miri: bool, only_run: Option<u64>, verbose: bool, watchdog_s: u64,
     list_targets: bool, target: Option<String>,
+    /// "<property>|<signature glob>" of findings that are already listed (known_findings.json): recorded once, never counted towards the limit
+    known: Vec<String>,
 }
 
 fn parse_args() -> Args {
     let mut a = Args { profile: "C01".into(), seed: 1, max_runs: u64::MAX, budget_ms: 5_000, noise: "mix".into(), out: None, miri: cfg!(miri), only_run: None, verbose: false,
-                       watchdog_s: 60, list_targets: false, target: None };
+                       watchdog_s: 60, list_targets: false, target: None, known: vec![] };
     let v: Vec<String> = std::env::args().collect();
     let mut i = 1;
     while i < v.len() {
@@ -38,6 +40,7 @@ fn parse_args() -> Args {
             "--only-run" => { a.only_run = Some(val(i).parse().expect("only-run")); i += 1; }
             "--watchdog-s" => { a.watchdog_s = val(i).parse().expect("watchdog"); i += 1; }
             "--target" => { a.target = Some(val(i)); i += 1; }
+            "--known" => { a.known.push(val(i)); i += 1; }
             "--miri" => a.miri = true,
             "--verbose" => a.verbose = true,
             "--list-targets" => a.list_targets = true,
@@ -61,13 +64,14 @@ pub struct Agg {
     pub by_plan: BTreeMap<String, u64>, pub wake_classes: BTreeMap<String, u64>, pub other: BTreeMap<String, u64>,
     pub violations: Vec<String>, pub foreign: BTreeMap<String, u64>, pub samples: Vec<String>, pub inconclusive_notes: Vec<String>,
     pub ordered_pairs: u64, pub pool_peak: usize,
+    pub unlisted: usize, pub listed_seen: HashSet<String>,
 }
 
 impl Agg {
     fn new() -> Agg {
         Agg { evaluations: 0, completed: 0, stuck: 0, inconclusive: 0, nontrivial: HashSet::new(), nontrivial_runs: 0, by_kind: BTreeMap::new(), by_runner: BTreeMap::new(),
               by_template: BTreeMap::new(), by_pool: BTreeMap::new(), by_plan: BTreeMap::new(), wake_classes: BTreeMap::new(), other: BTreeMap::new(), violations: vec![],
-              foreign: BTreeMap::new(), samples: vec![], inconclusive_notes: vec![], ordered_pairs: 0, pool_peak: 0 }
+              foreign: BTreeMap::new(), samples: vec![], inconclusive_notes: vec![], ordered_pairs: 0, pool_peak: 0, unlisted: 0, listed_seen: HashSet::new() }
     }
     pub fn bump(m: &mut BTreeMap<String, u64>, k: &str, n: u64) { *m.entry(k.to_string()).or_insert(0) += n; }
 }
@@ -85,6 +89,20 @@ fn run_json(res: &run::RunResult, run_idx: u64, with_history: bool) -> String {
     j.key("diagnosis").arr(); for d in &res.diag { j.string(d); } j.end_arr();
     j.end_obj();
     j.s
+}
+
+/// Glob with `*` only
+fn glob_match(pat: &str, text: &str) -> bool {
+    let parts: Vec<&str> = pat.split('*').collect();
+    if parts.len() == 1 { return pat == text; }
+    let mut pos = 0usize;
+    for (i, part) in parts.iter().enumerate() {
+        if part.is_empty() { continue; }
+        if i == 0 { if !text.starts_with(part) { return false; } pos = part.len(); continue; }
+        match text[pos..].find(part) { Some(at) => pos += at + part.len(), None => return false }
+    }
+    let last = parts.last().unwrap();
+    last.is_empty() || text.ends_with(last)
 }
 
 fn absorb(agg: &mut Agg, res: &run::RunResult, own: &str, run_idx: u64, args: &Args) {
@@ -130,6 +148,9 @@ fn absorb(agg: &mut Agg, res: &run::RunResult, own: &str, run_idx: u64, args: &A
     let mut seen = HashSet::new();
     for v in &res.violations {
         if !seen.insert((v.prop, v.sig.clone())) { continue; }
+        let listed = args.known.iter().any(|k| glob_match(k, &format!("{}|{}", v.prop, v.sig)));
+        if listed && !agg.listed_seen.insert(format!("{}|{}", v.prop, v.sig)) { continue; }
+        if !listed { agg.unlisted += 1; }
         if v.prop != own { Agg::bump(&mut agg.foreign, &format!("{}:{}", v.prop, v.kind), 1); }
         let mut j = Json::new();
         j.obj();
@@ -137,7 +158,7 @@ fn absorb(agg: &mut Agg, res: &run::RunResult, own: &str, run_idx: u64, args: &A
         j.kv_str("profile", &args.profile).kv_num("seed", args.seed).kv_num("run_index", run_idx).kv_str("noise_family", &args.noise).kv_bool("miri", args.miri);
         j.key("run").raw(&run_json(res, run_idx, true));
         j.end_obj();
-        if agg.violations.len() < 40 { agg.violations.push(j.s); }
+        if agg.violations.len() < 40 || listed { agg.violations.push(j.s); }
         if args.verbose { eprintln!("VIOLATION-FOUND {} {} {} :: {}", v.prop, v.kind, v.sig, v.detail); }
     }
 }
@@ -198,7 +219,7 @@ fn main() {
         absorb(&mut agg, &res, profile, idx, &args);
         if res.outcome == run::Outcome::Stuck { exit_reason = "stuck"; break; }
         if let run::Outcome::Inconclusive(_) = res.outcome { exit_reason = "inconclusive"; break; }
-        if agg.violations.len() >= 20 { exit_reason = "many_violations"; break; }
+        if agg.unlisted >= 20 { exit_reason = "many_violations"; break; }
         est_points = (est_points * 7 + noise_points_estimate()) / 8;
         idx += 1;
     }
